@@ -1,6 +1,7 @@
 package dig
 
 import (
+	"github.com/indexsupply/shovel/eth"
 	"strings"
 
 	"github.com/indexsupply/shovel/zzvrf"
@@ -68,5 +69,24 @@ func ZZ_C13_Signature(shape, nlen int) {
 	}
 	want += ")"
 	zzvrf.Assert(got == want, "signature-canonical")
+	zzvrf.Reach("end")
+}
+
+// ZZ_C13_TwoEvents: two integrations of one process declare events of the
+// SAME name with different inputs (e.g. two versions of a Swap event): each
+// one's signature hash is the hash of ITS OWN canonical signature, so each
+// decodes only its own logs.
+func ZZ_C13_TwoEvents(shapeA, shapeB int) {
+	evA := Event{Name: "Swap", Inputs: zzSigCatalogue(shapeA)}
+	evB := Event{Name: "Swap", Inputs: zzSigCatalogue(shapeB)}
+	hA1 := evA.SignatureHash()
+	hB := evB.SignatureHash()
+	hA2 := evA.SignatureHash()
+	zzvrf.Assert(zzvrf.BytesEq(hA1, eth.Keccak([]byte(evA.Signature()))), "sighash-is-the-hash-of-this-event's-signature")
+	zzvrf.Assert(zzvrf.BytesEq(hB, eth.Keccak([]byte(evB.Signature()))), "sighash-is-the-hash-of-this-event's-signature")
+	zzvrf.Assert(zzvrf.BytesEq(hA2, hA1), "sighash-stable")
+	if evA.Signature() != evB.Signature() {
+		zzvrf.Assert(!zzvrf.BytesEq(hA1, hB), "different-signatures-different-hashes")
+	}
 	zzvrf.Reach("end")
 }
